@@ -21,6 +21,8 @@ def run(ck):
     ck.clause("C03.1", "aggregator emits on every path for a non-empty operation list")
     ck.clause("C03.2", "operation walk covers reference labels first..last inclusive")
     ck.clause("C03.3", "empty HitEnum only for a record without pairs")
+    ck.clause("C03.4", "one walk over all pairs of the record (segment boundaries are not visible in HitEnum)")
+    ck.clause("C03.5", "insertion run = |difference of query label numbers| - 1 (strand-symmetric), then the query cursor jumps to the current pair")
     row = p.find_class("AlignmentResultRow")
     cigar = p.lookup_method(row, "cigarString", None)
     if cigar is None or not cigar.is_property:
@@ -149,3 +151,82 @@ def run(ck):
                     raise AnalysisError(f"{where(gen, e.node)}: unrecognised walk bounds range({T.show(lo)}, {T.show(hi)})")
                 judged += 1
     ck.floor("C03.2 judged loops", judged, 1)
+
+    # ---- C03.4: the joined value = aggregator(list(generator())) with the generator walking self.alignedPairs
+    for pa in paths:
+        joins = find_terms(pa.value, lambda x: x[0] == "mcall" and x[2] == "join") if pa.value is not None else []
+        if not joins:
+            continue
+        arg = joins[0][3][0]
+        w = where(cigar, pa.node)
+        if not (arg[0] == "app" and arg[1] == agg_q):
+            raise AnalysisError(f"{w}: joined value is not the aggregator's result")
+        hits = list(dict(arg[3]).values())[0]
+        inner = hits
+        while inner[0] == "call" and inner[1] in ("list", "tuple") and len(inner[2]) == 1:
+            inner = inner[2][0]
+        one_walk = inner[0] == "app" and inner[1] == gen_q and inner[2] == V(cigar.self_name)
+        if one_walk:
+            ck.ok("C03.4", short(cigar) + ":one-walk", w, "HitEnum is produced by one walk of the operation generator over the record")
+        else:
+            ck.violation("C03.4", short(cigar) + ":one-walk", w, "HitEnum is not produced by a single walk over all pairs of the record "
+                         "(e.g. per segment and concatenated: labels skipped between segments get no D/I)", found=T.show(hits)[:240],
+                         required="aggregate(list(self.__getHitEnums()))")
+    # the generator starts from all aligned pairs of the row
+    src_ok = False
+    for pa in gpaths:
+        for e in pa.events:
+            if e.kind == "assign" and any(x == self_attr("alignedPairs") for x in T.subterms(e.term)):
+                src_ok = True
+    gparams = gen.call_params()
+    if gparams:
+        ck.violation("C03.4", short(gen) + ":source", gen.where, "the operation generator no longer walks the record's own pair list "
+                     "(it takes the pairs to walk as an argument)", found=f"parameters {[pp.name for pp in gparams]}",
+                     required="walk over self.alignedPairs")
+    else:
+        ck.judge(src_ok, "C03.4", short(gen) + ":source", gen.where, "the walk covers self.alignedPairs (all pairs of the record)",
+                 found="self.alignedPairs not read" if not src_ok else None)
+
+    # ---- C03.5: insertion runs
+    import ast as _ast
+    inner_loops = []
+    for lp in loops:
+        for n2 in _ast.walk(lp):
+            if isinstance(n2, _ast.For) and n2 is not lp and any(isinstance(y, (_ast.Yield,)) for y in _ast.walk(n2)):
+                inner_loops.append(n2)
+    ck.floor("C03.5 insertion loops", len(inner_loops), 1)
+    done = False
+    for pa in explore(ck, gen, unroll=(1, 2), truthy_elems=True):
+        for e in pa.events:
+            if e.kind == "foriter" and e.node in inner_loops and not done:
+                it = e.term
+                done = True
+                w = where(gen, e.node)
+                cnt = None
+                if it[0] == "call" and it[1] == "range":
+                    a = it[2]
+                    if len(a) == 1:
+                        cnt = a[0]
+                    elif len(a) == 2:
+                        cnt = T.p_sub(a[1], a[0])
+                if cnt is None:
+                    raise AnalysisError(f"{w}: insertion loop is not a range(...): {T.show(it)[:160]}")
+                absd = [x for x in T.subterms(cnt) if x[0] == "call" and x[1] == "abs"]
+                sym = bool(absd) and cnt == T.p_sub(absd[0], C(1)) and \
+                    any(y[0] == "attr" and y[2] == "siteId" for y in T.subterms(absd[0]))
+                if sym:
+                    ck.ok("C03.5", short(gen) + ":insertion-count", w, "insertions per gap = |difference of query label numbers| - 1", T.show(cnt)[:160])
+                else:
+                    ck.violation("C03.5", short(gen) + ":insertion-count", w, "the number of I operations emitted for a gap is not "
+                                 "|difference of query label numbers| - 1 computed symmetrically for both strands",
+                                 found=f"range length {T.show(cnt)[:200]}", required="abs(current.query.siteId - previousQuery) - 1")
+    if not done:
+        raise AnalysisError(f"{gen.where}: insertion loop was not reached on a one-iteration path")
+    # inside the insertion loop the query cursor must not be moved label by label
+    for lp in inner_loops:
+        for n2 in _ast.walk(lp):
+            if isinstance(n2, (_ast.Assign, _ast.AugAssign)) and any(isinstance(t, _ast.Name) and "revious" in t.id
+                                                                      for t in (_ast.walk(n2.targets[0]) if isinstance(n2, _ast.Assign) else [n2.target])):
+                ck.violation("C03.5", short(gen) + ":cursor-in-loop", where(gen, n2), "the query cursor is updated inside the insertion "
+                             "loop (direction-dependent: wrong end of the gap on the reverse strand)", found=_ast.unparse(n2),
+                             required="previousQuery = currentPair.query.siteId after the run")
